@@ -398,7 +398,7 @@ func runStopChild(c *ctx) {
 	select {
 	case <-done:
 		exited = 1
-	case <-time.After(3 * time.Second):
+	case <-time.After(30 * time.Second): // generous: under load the loop first works off its backlog
 	}
 	time.Sleep(5 * time.Millisecond) // late timer callbacks and producers meet the stopped server
 	atomic.StoreInt32(&stop, 2)
@@ -406,7 +406,7 @@ func runStopChild(c *ctx) {
 	go func() { bg.Wait(); close(bgDone) }()
 	select {
 	case <-bgDone:
-	case <-time.After(3 * time.Second):
+	case <-time.After(30 * time.Second): // generous: under load the loop first works off its backlog
 		exited = 0 // a producer is stuck on the stopped server
 	}
 	fmt.Fprintf(os.Stderr, "child: %d Session Report Request(s) with usage reports reached the SMFs\n", atomic.LoadInt64(&usageSRRs))
